@@ -121,3 +121,24 @@ PROPS.update({
         "assumptions": SM9_ASSUME + ["tampering verdicts use klen >= 8 so that a chance collision has probability <= 2^-64"],
     },
 })
+
+PROPS.update({
+    "C12": {
+        "level": "exploration",
+        "profiles": BOTH,
+        "rule": "sm9_u256_pairing (via hook) on ([a]P1,[b]P2), a,b in {1,2,3,N-2,N-1,random}, inputs affine and re-randomised Jacobian (Z in Fp resp. Fp2 incl. Z=u): the 384-byte value must equal the reference textbook pairing; the Annex value of e(P1,Ppub-s); bilinearity e([a]P1,[b]P2) = e(P1,P2)^(ab), non-degeneracy and order N evaluated in the library on many more pairs. Distinct by (a, b, Z1, Z2)",
+        "assumptions": SM9_ASSUME,
+    },
+    "C13": {
+        "level": "exploration",
+        "profiles": BOTH,
+        "rule": "Fp/Fp2/Fp4/Fp12 trait methods and crate-private helpers (via hook) on elements with every subset of zero components (4, 16, 4096: exhaustive) and boundary/random coefficients, compared after embedding into Fp[w]/(w^12+2); mod-N add/sub/mul/inv/pow vs BigUint; Booth digit for every (window, pattern) of the 5- and 7-bit recodings (exhaustive) + recomposition; all 37x64 table entries and their scalars through Point::g_mul (exhaustive); G1/G2 add (mixed/full), double, neg, sub, mul, equality, curve membership, Frobenius-twist maps on re-randomised Jacobian representations incl. P=Q different Z, P=-Q, infinity forms. Distinct by operand values",
+        "assumptions": SM9_ASSUME + ["inverse of zero and affine conversion of infinity are unspecified and excluded"],
+    },
+    "C16": {
+        "level": "exploration",
+        "profiles": BOTH,
+        "rule": "mod_n_from_hash on Ha = q(N-1)+r for r in {0,1,2,N-3,N-2} and boundary/random q (quotient-estimate edge), top-limb-ones, all-FF, small, random and 64-byte inputs vs (int(Ha[0..40]) mod (N-1)) + 1; H1/H2 wrappers vs reference over identities of 0..300 bytes; the three key extractions vs reference group law incl. master keys crafted so that H1+k = 0 mod N (must fail) and k +- 1 (must succeed); Annex keys. Distinct by Ha / (id, hid) / (k, id, hid)",
+        "assumptions": SM9_ASSUME,
+    },
+})
